@@ -162,6 +162,22 @@ func (c *bctx) build(n *Node) jen.Code {
 		return jen.Tag(map[string]string{})
 	case "empty":
 		return jen.Empty()
+	case "ctorchain":
+		// tokens chained onto what a package-level constructor of an "invisible" item hands out
+		// (Empty() in front of slice bounds or for clauses is the documented use): every call
+		// must hand out a statement of its own
+		var s *jen.Statement
+		switch ((n.I % 4) + 4) % 4 {
+		case 0:
+			s = jen.Empty()
+		case 1:
+			s = jen.Null()
+		case 2:
+			s = jen.Add()
+		default:
+			s = jen.Op("")
+		}
+		return s.Add(c.arg(n, 0)).Op("+").Add(c.arg(n, 1))
 	case "line":
 		return jen.Line()
 	case "define":
@@ -462,6 +478,10 @@ func setupTarget(sub string, plan *FSPlan, op int, prevTarget string, prefill []
 		os.MkdirAll(target, 0755)
 		os.WriteFile(filepath.Join(target, "keep.txt"), []byte("KEEP"), 0644)
 		os.Chtimes(filepath.Join(target, "keep.txt"), oldTime, oldTime)
+	case "isdir-empty":
+		// an empty directory in the target's place: the one kind of directory a clean-up
+		// with os.Remove can take away
+		os.MkdirAll(target, 0755)
 	case "noparent":
 		target = filepath.Join(sub, "missing", "out.go")
 	case "parentfile":
